@@ -342,6 +342,33 @@ def setter_input(nm, f):
     raise RuntimeError(nm)
 
 
+def site_of(name):
+    """call-site group used in signatures (one signature per code path, not per event)"""
+    if name in ("neg", "abs"):
+        return "unary-operator"
+    if name == "pos":
+        return "pos"
+    if name.startswith("comp-"):
+        return "component"
+    if name in ("norm", "orientation"):
+        return "norm-orientation"
+    if name in ("real", "imag", "conjugate", "phase", "cabs"):
+        return "complex-parts"
+    if name.startswith("diff"):
+        return "diff"
+    if name.startswith("np.") or name == "ndarray-mul":
+        return "ufunc"
+    if name.startswith("set-"):
+        return name
+    for pre, site in (("sel-", "sel"), ("getitem-", "getitem"), ("pad-", "pad"), ("resample-", "resample"),
+                      ("rot90-", "rotate90"), ("hdf5", "hdf5"), ("vtk-", "vtk")):
+        if name.startswith(pre):
+            return site
+    if name.endswith("-field") or name.endswith("-scalarfield"):
+        return "operator-between-fields"
+    return "operator-with-constant"
+
+
 EVENTS = build_events()
 EVBY = {e.name: e for e in EVENTS}
 
@@ -426,6 +453,7 @@ class Search:
         if not ev.enabled(f):
             return None
         inst = f"start={self.start};program={'>'.join(hist + (evname,))}"
+        site = site_of(evname)
         if ev.kind == "set":
             return self.check_setter(f, evname, inst)
         o = None
@@ -454,12 +482,12 @@ class Search:
         if ev.kind != "inplace-map":
             for (w, vb, ab), (_, x) in zip(pre_bytes, operands):
                 if x.valid.tobytes() != vb:
-                    ctx.fail(f"{evname}/operand-validity-modified", f"{inst}: the {w}'s validity changed during the event",
+                    ctx.fail(f"{site}/operand-validity-modified", f"{inst}: the {w}'s validity changed during the event",
                              instance=inst)
                     bad = True
         # (a) Boolean array of the mesh shape
         if not mask_ok(r.valid, n):
-            ctx.fail(f"{evname}/result-validity-not-a-boolean-array-of-mesh-shape",
+            ctx.fail(f"{site}/result-validity-not-a-boolean-array-of-mesh-shape",
                      f"{inst}: result.valid is {describe(r.valid)}, mesh n={n}", instance=inst)
             return None  # do not expand (everything downstream would be noise)
         # (b) mask algebra
@@ -486,7 +514,7 @@ class Search:
                     where[tuple(sl)] = True
         if exp is not None:
             if exp.shape != r.valid.shape:
-                ctx.fail(f"{evname}/validity-shape-differs-from-data-path", f"{inst}: {r.valid.shape} vs {exp.shape}",
+                ctx.fail(f"{site}/validity-shape-differs-from-data-path", f"{inst}: {r.valid.shape} vs {exp.shape}",
                          instance=inst)
                 bad = True
             else:
@@ -499,7 +527,7 @@ class Search:
                                 "validity-is-not-the-AND-of-the-operands")
                     else:
                         kind = "validity-not-transformed-like-the-data"
-                    ctx.fail(f"{evname}/{kind}", f"{inst}: result.valid={r.valid.astype(int).ravel().tolist()} "
+                    ctx.fail(f"{site}/{kind}", f"{inst}: result.valid={r.valid.astype(int).ravel().tolist()} "
                              f"expected={exp.astype(int).ravel().tolist()}"
                              + ("" if where is None else " (original cells only)"), instance=inst)
                     bad = True
@@ -526,7 +554,7 @@ class Search:
             if hit:
                 who = [w for (w, _), a, b in zip(operands, after, before) if a != b]
                 ident = " (the result IS the operand)" if r is f else ""
-                ctx.fail(f"{evname}/result-validity-not-its-own", f"{inst}: {hit} changed the validity of the {who}"
+                ctx.fail(f"{site}/result-validity-not-its-own", f"{inst}: {hit} changed the validity of the {who}"
                          f"{ident}; shares_memory with: {shared}", instance=inst)
                 bad = True
         # a wrong or shared mask does not make the successor meaningless (it is rebuilt on fresh objects): expand it
